@@ -89,8 +89,10 @@ pub fn uri_str(key: &str) -> String {
 
 pub fn server_params(p: &Program) -> iwes::ServerParams {
     let mut configuration = crate::canon::configuration(&p.refs_ext);
-    if p.config == "models" {
-        let model = liwe::model::config::Model { api_key_env: String::new(), base_url: "http://127.0.0.1:9".into(), name: "none".into(), max_tokens: None, max_completion_tokens: None, temperature: None };
+    if p.config == "models" || p.config == "models-unreachable" {
+        // "models-unreachable": an API key variable that is set and an endpoint that refuses connections, so that the
+        // LLM client really runs (offline) and has to fail
+        let model = liwe::model::config::Model { api_key_env: if p.config == "models" { String::new() } else { "PATH".into() }, base_url: "http://127.0.0.1:9".into(), name: "none".into(), max_tokens: None, max_completion_tokens: None, temperature: None };
         configuration.models.insert("default".into(), model);
         configuration.actions.insert(
             "rewrite".into(),
@@ -1102,7 +1104,12 @@ pub fn generate(seed: u64, thorough: bool, faults: bool) -> GenOut {
     let refs_ext = if swarm.chance(1, 5) { ".md" } else { "" }.to_string();
     let n_msgs = swarm.range(min_msgs, max_msgs);
     let client_name = if swarm.chance(1, 5) { "helix" } else { "" }.to_string();
-    let config = if swarm.chance(1, 3) { "models" } else { "plain" }.to_string();
+    let config = match swarm.below(12) {
+        0..=2 => "models",
+        3 => "models-unreachable",
+        _ => "plain",
+    }
+    .to_string();
     let (policy_name, policy) = *swarm.pick(POLICIES);
     let change_w = *swarm.pick(&[15u32, 30, 50]);
     // swarm: which fault kinds are enabled in this run
@@ -1130,7 +1137,7 @@ pub fn generate(seed: u64, thorough: bool, faults: bool) -> GenOut {
         texts.insert(k.clone(), gen::render(k, &d));
         docs.insert(k.clone(), d);
     }
-    if config == "models" && work.chance(1, 2) {
+    if config.starts_with("models") && work.chance(1, 2) {
         // a prompt note so that '+' completions and the generate command have something to work on
         let d = Doc { front: None, blocks: vec![gen::Block::Heading { level: 1, inl: vec![gen::Inline::Word("prompt".into())], setext: false }], trailing_newline: true, bom: false };
         texts.insert("prompt-a".into(), gen::render("prompt-a", &d));
